@@ -1,5 +1,5 @@
 (* C02 — assignments never lose, duplicate or reorder matched values. *)
-From TxV Require Import Core.Base Model.MultBase Gen.SrcMult Model.Mult Proofs.MultProofs Proofs.MultFlowProofs.
+From TxV Require Import Core.Base Model.MultBase Gen.SrcMult Model.Mult Proofs.MultProofs Proofs.MultFlowProofs Proofs.MultRealProofs.
 
 (* An attribute is a list exactly when one object can collect more than one value for it:
    `infer` is the multiplicity inference of the current source (visit_assignment's operator table followed by
@@ -16,6 +16,20 @@ Print Assumptions C02_list_iff_many.
 Theorem C02_trace_within_maxcount : forall b a t, emits b t -> cap2 (weight a t) <= maxcount a b.
 Proof. exact (fun b a t => emits_weight a b t). Qed.
 Print Assumptions C02_trace_within_maxcount.
+
+(* maxcount is not just a syntactic count: whenever it says "many", the rule body (every ordered choice of which has
+   an alternative, as in any parsed grammar) allows a trace in which one object collects two values for a ... *)
+Theorem C02_many_is_realisable : forall b a,
+  alts_nonempty b = true -> 2 <= maxcount a b -> exists t, emits b t /\ 2 <= length (values_of a t).
+Proof. exact (fun b a => many_realisable a b). Qed.
+Print Assumptions C02_many_is_realisable.
+
+(* ... so: an attribute is a list EXACTLY when one object can collect more than one value for it. *)
+Theorem C02_list_exactly_when_collectable : forall b a,
+  alts_nonempty b = true ->
+  (is_list (infer b a) = true <-> exists t, emits b t /\ 2 <= length (values_of a t)).
+Proof. exact list_exactly_when. Qed.
+Print Assumptions C02_list_exactly_when_collectable.
 
 (* Every value an assignment matches appears in the model exactly once and in input order: for every accepted rule
    body, every trace it allows, every attribute and every (falsy) default, the builder (model.py's assignment
@@ -69,6 +83,10 @@ Example C02_nonvacuous_values :
   /\ build 0 (init_val (infer witness_body 0) (SInt 0)) (witness_trace 0) = Ok (AList [SInt 0; SInt 2]).
 Proof. exact nonvacuous_values. Qed.
 Print Assumptions C02_nonvacuous_values.
+
+Example C02_nonvacuous_realisable : alts_nonempty witness_body = true /\ 2 <= maxcount 0 witness_body.
+Proof. exact nonvacuous_realisable. Qed.
+Print Assumptions C02_nonvacuous_realisable.
 
 Example C02_nonvacuous_list :
   is_list (infer witness_body 0) = true
